@@ -699,6 +699,14 @@ func (w *worker) runJob(job *Job) (tr *Trace) {
 			}
 		case "printf":
 			cmds[p.Name] = func() { sh.Printf("%s", p.Arg) }
+		case "bind":
+			// the application changes a binding at run time through the public API:
+			// Arg = keymap NUL sequence NUL action; Pos = 1 for a macro
+			cmds[p.Name] = func() {
+				if f := strings.SplitN(p.Arg, "\x00", 3); len(f) == 3 {
+					sh.Config.Bind(f[0], f[1], f[2], p.Pos == 1)
+				}
+			}
 		}
 	}
 	if len(cmds) > 0 {
